@@ -4,4 +4,20 @@
 #[allow(dead_code, unused_imports, clippy::all, clippy::pedantic, clippy::nursery)]
 pub mod verif_access {
     pub use super::options::{HashOption, MoveOverheadOption, ThreadsOption, UciOption, UciOptionType};
+    use super::*;
+    /// a `Uci` as `uci()` builds it (same field values; smallest table), holding `game`
+    pub fn mk_uci(game: Game) -> Uci {
+        Uci {
+            control: None,
+            is_stopped: Arc::new(LockLatch::new()),
+            reporter: UciReporter { pretty_output: false },
+            debug: false,
+            persistent_state: Arc::new(Mutex::new(PersistentState::new(0))),
+            game,
+            options: EngineOptions::default(),
+            block_on_threads: false,
+        }
+    }
+    pub fn execute_ok(u: &mut Uci, cmd: &UciCommand) -> bool { u.execute(cmd).is_ok() }
+    pub fn game(u: &Uci) -> &Game { &u.game }
 }
